@@ -28,7 +28,9 @@ fn stream(xml: &str) -> Vec<Obs> {
     out
 }
 
-pub fn check(ops: &TypeOps, v: &dyn Val, cfg: &SerCfg) -> Result<(), String> {
+/// Ok(true) when the write_serializable path was compared as well
+pub fn check(ops: &TypeOps, v: &dyn Val, cfg: &SerCfg) -> Result<bool, String> {
+    let mut ws = false;
     let mut plain_cfg = cfg.clone();
     plain_cfg.indent = None;
     let plain = v.ser(&plain_cfg).map_err(|e| format!("plain serialization failed: {}", e))?;
@@ -45,6 +47,29 @@ pub fn check(ops: &TypeOps, v: &dyn Val, cfg: &SerCfg) -> Result<(), String> {
             ind
         ));
     }
+    // the same value through Writer::write_serializable inside an open element of an indenting writer
+    if let (Some(ind_cfg), Some(tag)) = (cfg.indent, cfg.root.as_deref().or(Some("w_root"))) {
+        let mut pc = plain_cfg.clone();
+        pc.root = Some(tag.to_string());
+        pc.level = 1;
+        pc.expand = false;
+        if let Ok(p2) = v.ser(&pc) {
+            let nested = v.se_write_serializable(tag, Some((ind_cfg.0 as u8, ind_cfg.1)), true).map_err(|e| format!("write_serializable on an indenting writer failed although to_string_with_root succeeds: {}", e))?;
+            let want = stream(&format!("<o_outer>{}</o_outer>", p2));
+            let got = stream(&nested);
+            if want != got {
+                let i = (0..want.len().max(got.len())).find(|&i| want.get(i) != got.get(i)).unwrap_or(0);
+                return Err(format!(
+                    "write_serializable inside <o_outer> on an indenting writer: token {} is {} but the plain serialization has {} (written {:?})",
+                    i,
+                    got.get(i).map(|o| o.show()).unwrap_or_else(|| "<none>".into()),
+                    want.get(i).map(|o| o.show()).unwrap_or_else(|| "<none>".into()),
+                    nested
+                ));
+            }
+            ws = true;
+        }
+    }
     let x = (ops.de_str)(&plain, None).map_err(|e| format!("plain serialization does not deserialize: {}", e.msg))?;
     let y = (ops.de_str)(&ind, None).map_err(|e| format!("indented serialization does not deserialize: {} (document {:?})", e.msg, ind))?;
     if !x.eq_val(y.as_ref()) {
@@ -53,7 +78,7 @@ pub fn check(ops: &TypeOps, v: &dyn Val, cfg: &SerCfg) -> Result<(), String> {
     if !x.eq_val(v) {
         return Err(format!("deserialized {} but serialized {}", x.dbg(), v.dbg()));
     }
-    Ok(())
+    Ok(ws)
 }
 
 /// serialize-only shapes (mixed content with items that write nothing): token-stream relation only
@@ -138,10 +163,14 @@ pub fn run_serde(ctx: &mut Ctx, loc: &mut Local, r: &mut Rng) {
             Ok(r) => r,
             Err(p) => Err(p),
         };
-        if let Err(d) = res {
-            ctx.violation(case, d);
-            if ctx.full() {
-                return;
+        match res {
+            Ok(true) => loc.serde_ws += 1,
+            Ok(false) => {}
+            Err(d) => {
+                ctx.violation(case, d);
+                if ctx.full() {
+                    return;
+                }
             }
         }
     }
